@@ -1,4 +1,4 @@
-PROPS = ["CTV.Props.C12"]
+PROPS = ["CTV.Props.C12", "CTV.Props.C12Tie"]
 HARNESS = [dict(pkg="./client/", test="TestVerifC12", synctest=True, timeout=900)]
 RULE = ("client.LogClient against a scripted http.RoundTripper inside a synctest bubble: GetSTH, AddChain, AddPreChain (with attempts answered 408/429/503/undecodable-200 "
         "before the response under test), GetSTHConsistency, GetProofByHash, GetEntryAndProof, GetRawEntries, GetAcceptedRoots, GetEntries; status in "
